@@ -176,7 +176,11 @@ def check(report, tier, only=None):
                                                           models=[(re.compile(p) if isinstance(p, str) else p, f) for p, f in C11.TIMEOUT_MODELS], depth=4)),
            ('try_parse', C11.ob_try_parse),
            # a stream's decoder sees that stream's bytes only: nothing a peer sends on one stream can make a later, well-formed request fail
-           ('stream_handler', lambda rep: rpcpath.ob_do_handle(rep, PROP))]
+           ('stream_handler', lambda rep: rpcpath.ob_do_handle(rep, PROP)),
+           # whatever a request stream carries, its failure is that stream's alone: the handler performs no connection-level operation
+           ('request_failure_confined', lambda rep: __import__('props.C12', fromlist=['x']).ob_handle_no_connection_ops(rep, PROP)),
+           # the header frame is decoded by the derived serde impls of the raw header structs (no hand-written visitor sized by attacker-chosen counts)
+           ('raw_header_fields', C07_e2.ob_serde_fields)]
     for n, f in obs:
         if only and not any(s in n for s in only):
             continue
